@@ -32,7 +32,9 @@ Definition may_live (r : arange) (a : Z) : bool :=
   match r with Untimed => true | Rng L U => (L <=? 0) || (a <=? U) end.
 (* is there possibly an instant t <= b with the entry expired:  0 < d < t *)
 Definition may_expired (r : arange) (b : Z) : bool :=
-  match r with Untimed => false | Rng L U => L <? b end.
+  match r with Untimed => false | Rng L U => (0 <? U) && (L <? b) end.
+(* could the stored deadline be <= 0 (none, or wrapped negative): then the API shows the zero time *)
+Definition nonpos_ok (r : arange) : bool := match r with Untimed => true | Rng L U => L <? 0 end.
 
 Definition wild (ae : aent) : bool := match ap ae with Wild => true | _ => false end.
 (* does the abstract entry allow the concrete entry (v, d) *)
@@ -69,17 +71,32 @@ Section Checker.
 Variable g : Z.          (* rounding granularity of the score conversion: |fl x - x| <= g/2 *)
 Variable defttl : Z.
 
-Definition new_range (a b ttl : Z) : arange :=
-  match eff_ttl defttl ttl with Some x => Rng (a + x) (b + x) | None => Untimed end.
+(* deadline of a store at some t in [a,b]: wrap64 (t + x). Without overflow [a+x, b+x]; when both ends
+   overflow int64 once the (negative) range [a+x-2^64, b+x-2^64]; None when the bracket straddles a wrap point *)
+Definition new_range (a b ttl : Z) : option arange :=
+  match eff_ttl defttl ttl with
+  | None => Some Untimed
+  | Some x => let lo := a + x in
+              let hi := b + x in
+              if hi <? M63 then Some (Rng lo hi)
+              else if (M63 <=? lo) && (hi <? M64) then Some (Rng (lo - M64) (hi - M64))
+              else None
+  end.
+(* the abstract entry of a fresh store: Wild when nothing can be said about its deadline *)
+Definition new_aent (v a b ttl : Z) : aent :=
+  match new_range a b ttl with
+  | Some r => {| av := v; ar := r; ap := Sure |}
+  | None => {| av := v; ar := Untimed; ap := Wild |}
+  end.
 
 (* a sweep at some t in [a,b] collects d iff d <> 0 and 0 <= fl d <= fl t.
-   d <= a (and 0 <= d)  ->  collected at every t (fl monotone);   d > b + g  ->  kept at every t *)
+   d <= a (and 0 <= d)  ->  collected at every t (fl monotone);   d > b + g  or  d < 0  ->  kept at every t *)
 Definition asweep_ent (a b : Z) (p : Z * aent) : option (Z * aent) :=
   if wild (snd p) then Some p else
   match ar (snd p) with
   | Untimed => Some p
   | Rng L U => if (0 <=? L) && (U <=? a) then None
-               else if b + g <? L then Some p
+               else if (b + g <? L) || (U <? 0) then Some p
                else Some (fst p, {| av := av (snd p); ar := ar (snd p); ap := Maybe |})
   end.
 
@@ -113,9 +130,9 @@ Definition astep (abs : amap) (s : tstep) : option amap :=
   let b := t_b s in
   match t_op s, t_out s with
   | OSet k v ttl, OutUnit =>
-      Some (m_put k {| av := v; ar := new_range a b ttl; ap := Sure |} abs)
+      Some (m_put k (new_aent v a b ttl) abs)
   | OSetIfAbsent k v ttl, OutBool true =>
-      if absent_ok abs k then Some (m_put k {| av := v; ar := new_range a b ttl; ap := Sure |} abs) else None
+      if absent_ok abs k then Some (m_put k (new_aent v a b ttl) abs) else None
   | OSetIfAbsent k v ttl, OutBool false =>
       match m_get abs k with
       | Some ae => if wild ae then Some abs else Some (m_put k {| av := av ae; ar := ar ae; ap := Sure |} abs)
@@ -124,15 +141,22 @@ Definition astep (abs : amap) (s : tstep) : option amap :=
   | OReplace k v ttl, OutBool true =>
       match m_get abs k with
       | Some ae => if wild ae || may_live (ar ae) a
-                   then Some (m_put k {| av := v; ar := new_range a b ttl; ap := Sure |} abs) else None
+                   then Some (m_put k (new_aent v a b ttl) abs) else None
       | None => None
       end
   | OReplace k v ttl, OutBool false => if miss_ok abs k b then Some (m_del k abs) else None
   | ODelete k, OutUnit => Some (m_del k abs)
   | OGet k, OutGet (Some (v, d)) =>
       match m_get abs k with
-      | Some ae => if fits ae v d && ((d <=? 0) || (a <=? d))
-                   then Some (m_put k {| av := v; ar := exact d; ap := Sure |} abs) else None
+      | Some ae =>
+          if 0 <? d                                 (* a deadline is shown: it is the stored one *)
+          then (if fits ae v d && (a <=? d)
+                then Some (m_put k {| av := v; ar := exact d; ap := Sure |} abs) else None)
+          else if d =? 0                            (* zero time shown: the stored deadline is <= 0 *)
+          then (if wild ae then Some abs
+                else if (av ae =? v) && nonpos_ok (ar ae)
+                     then Some (m_put k {| av := v; ar := ar ae; ap := Sure |} abs) else None)
+          else None
       | None => None
       end
   | OGet k, OutGet None => if miss_ok abs k b then Some (m_del k abs) else None
@@ -172,7 +196,7 @@ Definition dent := (Z * arange)%type.          (* value, deadline range *)
 Definition dmap := list (Z * dent).
 
 Definition sure_live (r : arange) (b : Z) : bool :=
-  match r with Untimed => true | Rng L U => b <=? L end.
+  match r with Untimed => true | Rng L U => (b <=? L) || (U <? 0) end.
 Definition sure_expired (r : arange) (a : Z) : bool :=
   match r with Untimed => false | Rng L U => (0 <? L) && (U <? a) end.
 
@@ -194,7 +218,7 @@ Fixpoint dsweep (a b : Z) (dm : dmap) : option dmap :=
           match r with
           | Untimed => Some ((k, (v, r)) :: t')
           | Rng L U => if (0 <=? L) && (U <=? a) then Some t'
-                       else if b + g <? L then Some ((k, (v, r)) :: t') else None
+                       else if (b + g <? L) || (U <? 0) then Some ((k, (v, r)) :: t') else None
           end
       end
   end.
@@ -214,18 +238,21 @@ Definition dmiss (dm : dmap) (k a : Z) : option dmap :=
   | Some (_, r) => if sure_expired r a then Some (m_del k dm) else None
   end.
 
+Definition dstore (dm : dmap) (k v a b ttl : Z) : option dmap :=
+  match new_range defttl a b ttl with Some r => Some (m_put k (v, r) dm) | None => None end.
+
 Definition dstep (dm : dmap) (s : tstep) : option dmap :=
   let a := t_a s in
   let b := t_b s in
   match t_op s, t_out s with
-  | OSet k v ttl, OutUnit => Some (m_put k (v, new_range defttl a b ttl) dm)
+  | OSet k v ttl, OutUnit => dstore dm k v a b ttl
   | OSetIfAbsent k v ttl, OutBool true =>
-      match m_get dm k with None => Some (m_put k (v, new_range defttl a b ttl) dm) | Some _ => None end
+      match m_get dm k with None => dstore dm k v a b ttl | Some _ => None end
   | OSetIfAbsent k v ttl, OutBool false =>
       match m_get dm k with None => None | Some _ => Some dm end
   | OReplace k v ttl, OutBool true =>
       match m_get dm k with
-      | Some (_, r) => if sure_live r b then Some (m_put k (v, new_range defttl a b ttl) dm) else None
+      | Some (_, r) => if sure_live r b then dstore dm k v a b ttl else None
       | None => None
       end
   | OReplace k v ttl, OutBool false => dmiss dm k a
